@@ -17,6 +17,7 @@ var Checks = map[string]func(tier string, seed uint64) int{
 	"C06": C06,
 	"C08": C08,
 	"C12": C12,
+	"C13": C13,
 	"C19": C19,
 }
 
@@ -29,8 +30,11 @@ var Generators = map[string]func(seed uint64, i int) *world.Case{
 	"C06": GenC06,
 	"C08": GenC08,
 	"C12": GenC12,
+	"C13": GenC13,
 	"C19": GenC19,
 }
+
+func jsonUnmarshal(b []byte, v any) error { return json.Unmarshal(b, v) }
 
 // Replay re-runs a replay file in a fresh process and reports whether the
 // recorded violation reproduces (exit 1) or not (exit 0).
